@@ -209,9 +209,20 @@ class SLock:
         return True
 
     def release(self):
-        self.count -= 1
-        self.events.append(("rel", self.owner))
-        if self.count == 0:
+        # threading.Lock may be released by ANY thread (that is how a bug can free somebody else's lock) and raises
+        # RuntimeError when it is not locked; threading.RLock may only be released by its owner
+        if self.reentrant:
+            if self.owner is None or self.owner != self.s.me():
+                raise RuntimeError("cannot release un-acquired lock")
+            self.count -= 1
+            self.events.append(("rel", self.owner))
+            if self.count == 0:
+                self.owner = None
+        else:
+            if self.owner is None:
+                raise RuntimeError("release unlocked lock")
+            self.events.append(("rel", self.owner))
+            self.count = 0
             self.owner = None
 
     def __enter__(self):
